@@ -637,7 +637,10 @@ def replay(ctx, payload):
     c = payload["case"]
     kind = c.get("kind")
     bad = False
-    if kind in ("ladder", "cli"):
+    if "fn" in c:       # a regression of a fixed finding: the case is the named witness
+        bad, detail = replay_witness(ctx, {"id": c["fn"], "witness": c})
+        print(f"replay: witness {c['fn']}: {detail}")
+    elif kind in ("ladder", "cli"):
         obs, retries = impl_compare(c["src"], c["ref"], tuple(c.get("flags", (False, False, False))))
         print(f"replay: MeshFieldsComparator -> {obs} (retries={retries}); demanded: equal domains, every field passed")
         bad = not passes(obs)
